@@ -11,7 +11,7 @@ import re
 import threading
 import time
 
-from vf import fakegrpc, graphs, snapcheck
+from vf import clock, fakegrpc, graphs, snapcheck
 from vf.rig import line_trigger
 from vf.snaprig import FrameCase, Workdir
 from vf.util import Rng, split_seeds, spec_seeds, replay_spec, short
@@ -27,7 +27,7 @@ RULE = ('(a) collector-produced snapshots of generated frames (friendly + hostil
         'later poll and send calls; non-trivial = message compared field by field; distinct by canonical case')
 ASSUMPTIONS = ['integers in attributes stay within int64', 'code points that UTF-8 cannot encode may be replaced by a '
                'short placeholder; every other character must arrive unchanged']
-REQUIRE = {'messages_compared': 800, 'fields_compared': 20000, 'collector_snapshots': 300, 'surrogate_cases': 40,
+REQUIRE = {'clock_set_back_cases': 10, 'tracepoint_arguments_given_as_numbers': 30, 'messages_compared': 800, 'fields_compared': 20000, 'collector_snapshots': 300, 'surrogate_cases': 40,
            'sequence_attribute_cases': 40, 'auth_sessions': 30, 'requests_with_metadata_checked': 100,
            'hostile_provider_sessions': 5}
 import enum  # noqa: E402
@@ -118,7 +118,8 @@ def walk(snap, msg, c):
     c.text('tracepoint.ID', msg.tracepoint.ID, tp.id)
     c.text('tracepoint.path', msg.tracepoint.path, tp.path)
     c.eq('tracepoint.line_number', msg.tracepoint.line_number, tp.line_no)
-    c.eq('tracepoint.args', dict(msg.tracepoint.args), {k: v for k, v in tp.args.items()})
+    # (the wire's argument map is text to text: values given as numbers in code travel in their text form)
+    c.eq('tracepoint.args', dict(msg.tracepoint.args), {k: v if type(v) is str else str(v) for k, v in tp.args.items()})
     c.eq('tracepoint.watches', list(msg.tracepoint.watches), list(tp.watches))
     c.eq('ts_nanos', msg.ts_nanos, snap.ts_nanos)
     c.eq('duration_nanos', msg.duration_nanos, snap.duration_nanos)
@@ -128,7 +129,8 @@ def walk(snap, msg, c):
         c.text('frame[%d].short_path' % i, mf.short_path, sf.short_path)
         c.text('frame[%d].method_name' % i, mf.method_name, sf.method_name)
         c.eq('frame[%d].line_number' % i, mf.line_number, sf.line_number)
-        c.text('frame[%d].class_name' % i, mf.class_name, sf.class_name)
+        c.text('frame[%d].class_name' % i, mf.class_name,
+               sf.class_name if sf.class_name is None or type(sf.class_name) is str else str(sf.class_name))
         c.eq('frame[%d].app_frame' % i, mf.app_frame, bool(sf.app_frame))
         c.eq('frame[%d].is_async' % i, mf.is_async, bool(sf.is_async))
         c.eq('frame[%d].column_number' % i, mf.column_number, sf.column_number or 0)
@@ -252,6 +254,11 @@ def case_collector(seed, out, spec, wd):
     args = {'frame_type': r.pick(['single_frame', 'all_frame', 'no_frame'])}
     if r.chance(0.4):
         args['log_msg'] = 'msg {%s} ünï' % names[0]
+    if r.chance(0.3):
+        # limits as an application registering the tracepoint in code writes them: numbers
+        args['fire_count'] = r.pick([3, -1, 1])
+        args['fire_period'] = r.pick([0, 0, 1000])
+        out.count('tracepoint_arguments_given_as_numbers')
     watches = r.sample(['%s' % names[0], 'len(str(%s))' % names[-1], '1/0', 'nope', '"\\ud800x"', '[%s]' % names[0]],
                        r.randrange(0, 4))
     case = FrameCase(wd, names, values, depth=r.pick([1, 2, 4]), method=r.chance(0.3))
@@ -306,18 +313,23 @@ def synth(r):
     for i in range(r.pick([0, 1, 2, 6])):
         vids = [VariableId(str(r.randrange(1, max(2, nvars + 1))), gen_text(r, False)) for _ in range(r.randrange(0, 4))]
         frames.append(StackFrame('/app/%s.py' % gen_text(r)[:10], r.pick(['/s.py', '', '\udcfe/s.py']), gen_text(r),
-                                 r.randrange(0, 5000), vids, r.pick([None, 'Cls', 'Ünï', 'C\udc80']),
+                                 r.randrange(0, 5000), vids, r.pick([None, 'Cls', 'Ünï', 'C\udc80', 'Cls', 5]),
                                  is_async=r.chance(0.2), column_number=r.pick([0, 0, 7]),
                                  transpiled_file_name=r.pick([None, None, 't.ts']),
                                  transpiled_line_number=r.pick([0, 3]), app_frame=r.chance(0.5)))
-    args = {gen_text(r, False)[:8] or 'k': gen_text(r, False) for _ in range(r.randrange(0, 3))}
+    args = {gen_text(r, False)[:8] or 'k': r.pick([gen_text(r, False), gen_text(r, False), 3, -1, 2.5, True])
+            for _ in range(r.randrange(0, 3))}
     tp = TracePointConfig('tp-' + gen_text(r, False)[:6], r.pick(['f.py', 'dir/ünï.py']), r.pick([1, 42, 0, -1]), args,
                           [gen_text(r, False) for _ in range(r.randrange(0, 3))], [])
     res_attrs = {'service.name': gen_text(r) or 's', 'n': r.pick([r.randrange(100), 2 ** 65]), 'f': 1.5, 'b': r.chance(0.5)}
     if r.chance(0.4):
         res_attrs['seq'] = r.pick([['a', 'b'], (1, 2, 3), [True, False], [1.5]])
         flags.add('sequence')
-    snap = EventSnapshot(tp, r.randrange(1, 1_700_000_000_000_000_000), Resource(res_attrs), frames, lookup)
+    # (a start stamp ahead of the completion time: the wall clock was set back while the snapshot was being taken)
+    ts = r.randrange(1, 1_700_000_000_000_000_000) if r.chance(0.9) else clock.real_ns() + r.randrange(1, 10 ** 10)
+    if ts > clock.real_ns():
+        flags.add('clock_set_back')
+    snap = EventSnapshot(tp, ts, Resource(res_attrs), frames, lookup)
     for _ in range(r.randrange(0, 5)):
         src = r.pick(['WATCH', 'LOG', 'METRIC', 'CAPTURE'])
         if r.chance(0.4):
@@ -386,6 +398,8 @@ def case_synthetic(seed, out, spec):
         out.count('surrogate_cases')
     if 'sequence' in flags:
         out.count('sequence_attribute_cases')
+    if 'clock_set_back' in flags:
+        out.count('clock_set_back_cases')
     out.case({'seed': seed, 'w': witness}, nontrivial=n > 0, sample=witness)
 
 
